@@ -308,12 +308,25 @@ pub fn with_rest(g: G) -> G {
     Then(b(g), b(ToSlice(b(Rep(b(Any), Bounds::STAR, Sink::Bare)))))
 }
 
+/// items that may match without consuming: legal only under `collect_exactly` (which is bounded by N and has
+/// no progress assertion)
+pub fn k02_nullable_items() -> Vec<G> {
+    vec![OrNot(b(Just('a'))), Empty, Rewind(b(Just('a'))), Map(b(OrNot(b(JustSeq('a', 'b')))))]
+}
+
 pub fn k02_rep(thorough: bool) -> Vec<G> {
     let mut out = vec![];
     for it in k02_items(thorough) {
         for bd in k02_bounds(true, 4) {
             for s in k02_sinks() {
                 out.push(with_rest(Rep(b(it.clone()), bd, s)));
+            }
+        }
+    }
+    for it in k02_nullable_items() {
+        for bd in k02_bounds(false, 4) {
+            for n in 0..=3 {
+                out.push(with_rest(Rep(b(it.clone()), bd, Sink::Exactly(n))));
             }
         }
     }
@@ -329,6 +342,15 @@ pub fn k02_sep(thorough: bool) -> Vec<G> {
                     for s in k02_sinks() {
                         out.push(with_rest(SepBy(b(it.clone()), b(sp.clone()), bd, l, t, s)));
                     }
+                }
+            }
+        }
+    }
+    for it in k02_nullable_items() {
+        for bd in k02_bounds(false, 3) {
+            for (l, t) in [(false, false), (true, true)] {
+                for n in 1..=3 {
+                    out.push(with_rest(SepBy(b(it.clone()), b(Just(',')), bd, l, t, Sink::Exactly(n))));
                 }
             }
         }
@@ -775,4 +797,21 @@ pub fn k04_deep() -> Class {
         u2(|a, s| if nn(&a) && nn(&s) { Some(SepBy(a, s, Bounds::STAR, false, true, Sink::Bare)) } else { None }),
     ];
     Class { name: "K04deep", leaves, unary, binary, ternary: vec![] }
+}
+
+/// Focused memoization-under-lookahead class (C11): a memoized parser that succeeds leaving an error
+/// behind its end position matters only when the input is given back (rewind, and_is).
+pub fn k_memo_look() -> Class {
+    let leaves = vec![Just('a'), Just('b')];
+    let unary = vec![u1(|a| Some(OrNot(a))), u1(|a| Some(Rewind(a)))];
+    let binary = vec![u2(|a, c| Some(Then(a, c))), u2(|a, c| Some(AndIs(a, c))), u2(|a, c| Some(IgnoreThen(a, c)))];
+    Class { name: "KmemoLook", leaves, unary, binary, ternary: vec![] }
+}
+
+/// Focused context-label class (C17): as_context stacks across success, merge and replacement.
+pub fn k_labelctx() -> Class {
+    let leaves = vec![Just('a'), JustSeq('a', 'b'), Any];
+    let unary = vec![u1(|a| Some(Labelled(a, true))), u1(|a| Some(OrNot(a)))];
+    let binary = vec![u2(|a, c| Some(Then(a, c))), u2(|a, c| Some(Or(a, c)))];
+    Class { name: "Klabelctx", leaves, unary, binary, ternary: vec![] }
 }
